@@ -130,6 +130,8 @@ CATALOGUE = [
     ("increment", "›", 1, 3), ("add-self", ":+", 1, 3), ("halve", "½", 1, 3), ("negate", "N", 1, 3), ("map-then-filter", "ƛ3*;'2%;", 2, 6),
     ("string-chunks", "ƛS;2ẇ", 2, 4), ("first-n-slice", "{n}Ẏ", 1, 3), ("slice-1-to-n", "{n}Ż", 1, 4), ("map-then-first-n", "ƛ2*;{n}Ẏ", 1, 3),
     ("map-then-windows", "ƛ›;2l", 1, 5), ("cumsum-then-deltas", "¦¯", 1, 5), ("zip-then-map", ":Zƛh;", 1, 4),
+    ("remove-listed-values (none occurs)", "⟨0⟩F", 1, 3), ("remove-listed-values (occurs late)", "⟨500⟩F", 1, 3), ("remove-listed-values (occurs early)", "⟨2|4⟩F", 1, 6),
+    ("double-then-windows", "2*3l", 1, 6), ("insert-at-position", "2 9Ṁ", 1, 4), ("append", "0J", 1, 3), ("take-while-less-than", "{n}›Þ<", 1, 4),
 ]
 
 
